@@ -307,6 +307,13 @@ class ObjectWriter:
                 # we have a weakref, see weakref.py
 
                 oid = obj.oid
+                if oid is not None:
+                    # The id was noted when the reference was made or first
+                    # stored.  A failed commit since may have taken it
+                    # away from the object again (see Connection.tpc_abort).
+                    target = getattr(obj, '_v_ob', None)
+                    if target is not None and target._p_oid != oid:
+                        oid = None
                 if oid is None:
                     target = obj()  # get the referenced object
                     oid = target._p_oid
